@@ -55,6 +55,7 @@ type ext struct {
 	cliCompared, cliSideFile, cliOddFile, cliRefused, tsNotes        int
 
 	cli *cliWorld
+	r4  r4
 }
 
 func runExtended(c *core.Ctx, base int, a *authority.Assembly, st *authority.State, bundle []byte) {
@@ -82,6 +83,7 @@ func runExtended(c *core.Ctx, base int, a *authority.Assembly, st *authority.Sta
 			x.command(i, k)
 		}
 	}
+	x.runRound4(i)
 	c.Count("sequence/steps-judged", x.seqSteps)
 	c.Count("sequence/steps-with-the-image-unchanged", x.seqSameImage)
 	c.Count("sequence/results-scribbled-before-the-next-call", x.seqScribbled)
